@@ -571,6 +571,9 @@ func (it *Interp) builtin(fr *frame, b *ssa.Builtin, c ssa.CallInstruction, args
 		if a.Kind == KNil {
 			return CInt(0)
 		}
+		if a.Kind == KSlice {
+			return CInt(int64(len(a.Tup)))
+		}
 		return it.lookup(b.Name() + "(" + a.String() + ")")
 	case "min", "max":
 		allConst := true
@@ -646,6 +649,14 @@ func (it *Interp) compute(fr *frame, v ssa.Value) AV {
 	case *ssa.IndexAddr:
 		base := it.val(fr, x.X)
 		i := it.val(fr, x.Index)
+		if base.Kind == KSlice && i.Kind == KConst {
+			if n, ok := constant.Int64Val(constant.ToInt(i.C)); ok && n >= 0 && int(n) < len(base.Tup) {
+				k := fmt.Sprintf("elem#%d@%d", n, it.allocN)
+				it.allocN++
+				it.mem[k] = base.Tup[n]
+				return AV{Kind: KAddr, Key: k}
+			}
+		}
 		return AV{Kind: KAddr, Key: strings.TrimPrefix(base.String(), "&") + "[" + i.String() + "]"}
 	case *ssa.Index:
 		base := it.val(fr, x.X)
